@@ -1,8 +1,22 @@
-import BufProofs.Lemmas.TargetingLemmas
+import BufProofs.Lemmas.BuildImageLemmas
+import BufProofs.Lemmas.TargetModelsAgree
 /-
   C01 — An image is the exact, closed, ordered compilation of the targeted files.
-  Property theorems only (over `BufModel.Targeting.buildImage`; the compiler is the parameter `c`,
-  `perm` the order in which it returns the root files).  Helper lemmas: BufProofs/Lemmas.
+  Property theorems only (over `BufModel.Targeting.buildImage`, which is what Driver/C01 runs; the
+  compiler is the parameter `c`, `perm` the order in which it returns the root files).
+  Helper lemmas: BufProofs/Lemmas (GraphLemmas: shared DFS invariant; DfsLemmas: fuel, failure,
+  set agreement; TargetCharLemmas: targeting; BuildImageLemmas: the pipeline as a whole).
+
+  First pass (conditional on `buildImage … = .ok img`): `image_nodup`, `image_closed`,
+  `image_minimal`, `image_topological`, `image_flags`, `targets_exact`, `sort_canonical`,
+  `dup_path_rejected`.
+  Second pass (answers handoff/AUDIT.md §C01):
+  * targeting characterised — `map_has_equal_or_containing_path_iff`, `is_target_file_paths`,
+    `is_target_file_proto_ref`, `module_target_files_exact`, `target_list_exact`,
+    `targets_exact_files`, `nontarget_files_are_imports`, `target_models_agree` (= C11's model);
+  * success / fuel — `fuel_suffices`, `build_succeeds_of_roots`, `build_succeeds`,
+    `target_list_succeeds`;
+  * failure — `unopenable_import_fails`, `import_cycle_fails`, `build_fails_iff`.
 -/
 namespace BufProofs.C01
 open BufModel.Path BufModel.Graph BufModel.Targeting
@@ -75,7 +89,10 @@ theorem image_topological (t : TWS) (c : Compiler) (perm : List Str → List Str
   simpa using this
 
 /-- For an acyclic import relation the order check inside `buildImage` never rejects the DFS
-    order: a failure of that check really is an import cycle. -/
+    order: a failure of that check really is an import cycle.  Stated for a generic `succ` and
+    GLOBAL acyclicity; the connection to `buildImage` is `build_succeeds_of_roots` /
+    `build_fails_iff`, which use the sharper form (acyclicity only below the roots) of the same
+    argument, and `import_cycle_fails` for the converse. -/
 theorem dfs_order_topological_of_acyclic {α : Type} [DecidableEq α] (succ : α → Option (List α))
     (hac : ∀ x cs c, succ x = some cs → c ∈ cs → ¬ Reach succ c x)
     (fuel : Nat) (roots vis order : List α) (h : dfsRoots succ fuel roots = .ok (vis, order)) :
@@ -120,7 +137,14 @@ theorem targets_exact (t : TWS) (c : Compiler) (perm : List Str → List Str) (i
     exact hi
 
 /-- The result does not depend on the order in which the compiler hands back the compiled root
-    files: any permutation gives the same image (or the same error). -/
+    files: any permutation gives the same image (or the same error).
+    THIN BY CONSTRUCTION (audit C01 weak point 5): the compiler's output enters the model only as
+    `perm roots`, and the model's `checkAndSortFiles` validates that list (length, no empty name,
+    no duplicate, every root present) and then returns `roots` verbatim — exactly as
+    build_image.go does (it re-indexes the compiled files by the input path order).  So the
+    content of this theorem is `checkAndSortFiles_perm`: the four validations are multiset
+    properties.  It says nothing about the order in which protocompile schedules work or reports
+    one of several errors; that is excluded by the generator (one planted defect per workspace). -/
 theorem sort_canonical (t : TWS) (c : Compiler) (perm : List Str → List Str)
     (hperm : ∀ l, (perm l).Perm l) : buildImage t c perm = buildImage t c id := by
   unfold buildImage
@@ -143,14 +167,227 @@ theorem dup_path_rejected (files fs : List ImgFile) (h : newImage files = .ok fs
     cases u
     exact (newImage_go_nodup fs [] [] hgo).1
 
-/-- Error clause (partial): the diagnostic buf reports for a compiler error keeps the compiler's
-    line and column and carries the external (user-given) path recorded for the file.  That the
-    compiler positions its errors at the offending token is library behaviour (protocompile) and
-    is covered by the planted-error oracle of harness/cmd/c01 only. -/
+/-- Error clause (partial, MODEL-ONLY): the diagnostic buf reports for a compiler error keeps the
+    compiler's line and column and carries the external (user-given) path recorded for the file.
+    This is a statement about the three-line model function `annotate` over a free resolver
+    `externalOf`; `annotate` is NOT run by Driver/C01 (the driver handles only `img` lines), so
+    there is no model/implementation correspondence for it.  The clause "diagnostics positioned at
+    the offending file:line:column using the path the user gave" is checked by the ORACLE ONLY
+    (harness/cmd/c01 section B: planted unknown type / duplicate field number / syntax error at a
+    known line:column, classes `annotation-position`, `no-diagnostics`).  That the compiler
+    positions its errors at the offending token is library behaviour (protocompile).  The
+    "no image" half of the clause IS proved: `unopenable_import_fails`, `import_cycle_fails`,
+    `build_fails_iff`; syntax/type errors have no representation in `Compiler`. -/
 theorem annotation_position_partial (externalOf : Str → Option Str) (e : CompilerError) (x : Str)
     (hx : externalOf e.file = some x) (hne : x ≠ []) :
     annotate externalOf e = { externalPath := x, line := e.line, col := e.col } := by
   simp [annotate, hx, hne]
+
+/-! ## Second pass
+
+### Targeting characterised (audit C01 weak point 1) -/
+
+/-- `normalpath.MapHasEqualOrContainingPath m p` ⇔ some entry of `m` equals or contains `p`
+    (component-wise; the Dir-walk with fuel of the model is eliminated). -/
+theorem map_has_equal_or_containing_path_iff (m : List Str) (p : Str) :
+    mapHasEqualOrContainingPath m p = true ↔ ∃ q ∈ m, equalsOrContainsPath q p = true :=
+  mapHas_iff m p
+
+/-- `getIsTargetFileForPathUncached`, user-level reading without a proto-file reference:
+    target file ⇔ the module is targeted ∧ (no `--path` given ∨ some `--path` equals or contains
+    the file) ∧ no `--exclude-path` equals or contains it. -/
+theorem is_target_file_paths (t : TWS) (m : Nat) (f : PFile) (hpf : (cfgOf t m).protoFile = []) :
+    isTargetIn t m f = true ↔
+      modIsTarget t m = true ∧
+      ((cfgOf t m).paths = [] ∨ ∃ q ∈ (cfgOf t m).paths, equalsOrContainsPath q f.path = true) ∧
+      (∀ q ∈ (cfgOf t m).excludes, equalsOrContainsPath q f.path = false) :=
+  isTargetFile_paths_iff _ _ _ f hpf
+
+/-- … with a proto-file reference (`buf build a/b.proto`, `#include_package_files=true`): the
+    referenced file is a target; with include_package_files so is every file of the module whose
+    package equals the non-empty package of the referenced file (if the module has that file —
+    with shared roots it may not, then nothing else is targeted). -/
+theorem is_target_file_proto_ref (t : TWS) (m : Nat) (f : PFile) (hpf : (cfgOf t m).protoFile ≠ [])
+    (hnd : ((modFiles t.ws m).map (·.path)).Nodup) :
+    isTargetIn t m f = true ↔
+      modIsTarget t m = true ∧
+      (f.path = (cfgOf t m).protoFile ∨
+        ((cfgOf t m).includePackageFiles = true ∧
+          ∃ g ∈ modFiles t.ws m, g.path = (cfgOf t m).protoFile ∧ g.pkg ≠ [] ∧ g.pkg = f.pkg)) :=
+  isTargetFile_protoFile_iff_mem _ _ _ f hpf hnd
+
+/-- `moduleReadBucket.WalkFileInfos(WithOnlyTargetFiles)` — the per-`--path` walk with the
+    seen-set, or the whole-bucket walk — yields exactly the target files of the module.
+    Side condition `WfCfg`: no proto-file reference together with `--path` (AddLocalModule rejects
+    that combination); without it only soundness (→) holds, `mem_moduleTargetFiles_sound`. -/
+theorem module_target_files_exact (t : TWS) (m : Nat) (f : PFile) (hwf : WfCfg (cfgOf t m)) :
+    f ∈ (moduleTargetFiles t m).1 ↔ f ∈ modFiles t.ws m ∧ isTargetIn t m f = true :=
+  mem_moduleTargetFiles hwf
+
+/-- `GetTargetFileInfos` → the root list handed to the compiler: sorted, duplicate-free, and a
+    path is a root iff it is the path of a file `f` of a module `m` with `isTargetIn t m f`.
+    No dedup / first-wins is involved: when a path is a target file twice `targetList` fails with
+    `dupPath` (that is the `roots.Nodup` conjunct read backwards). -/
+theorem target_list_exact (t : TWS) (roots : List Str) (hwf : WfCfgs t) (h : targetList t = .ok roots) :
+    roots.Pairwise (fun a b => strLe a b = true) ∧ roots.Nodup ∧ roots ≠ [] ∧
+    ∀ p, p ∈ roots ↔ ∃ m f, f ∈ modFiles t.ws m ∧ isTargetIn t m f = true ∧ f.path = p :=
+  ⟨targetList_sorted h, targetList_nodup h, targetList_ne_nil h, mem_targetList hwf h⟩
+
+/-- `targets_exact` with the target decision spelled out (DESIGN §6: `nonImports = {f | isTarget
+    cfg f}`): the files of the image marked non-import are exactly the paths of the target files. -/
+theorem targets_exact_files (t : TWS) (c : Compiler) (perm : List Str → List Str) (img : List ImgFile)
+    (hwf : WfCfgs t) (h : buildImage t c perm = .ok img) (p : Str) :
+    (∃ f ∈ img, f.path = p ∧ f.isImport = false) ↔
+      ∃ m g, g ∈ modFiles t.ws m ∧ isTargetIn t m g = true ∧ g.path = p := by
+  obtain ⟨roots, hroots, hex⟩ := targets_exact t c perm img h
+  rw [← hex p, mem_targetList hwf hroots]
+
+/-- Non-target files enter an image only as imports.  For every file `f` of a built image:
+    (1) `f` is marked non-import iff it is a target file; (2) `f` is reachable through the
+    compiler's import lists from some target file; (3) if a module that is NOT targeted provides
+    `f`'s path then `f` is marked import. -/
+theorem nontarget_files_are_imports (t : TWS) (c : Compiler) (perm : List Str → List Str)
+    (img : List ImgFile) (hwf : WfCfgs t) (h : buildImage t c perm = .ok img) :
+    ∀ f ∈ img,
+      (f.isImport = false ↔ ∃ m g, g ∈ modFiles t.ws m ∧ isTargetIn t m g = true ∧ g.path = f.path) ∧
+      (∃ m g, g ∈ modFiles t.ws m ∧ isTargetIn t m g = true ∧ Reach (csucc t.ws c) g.path f.path) ∧
+      (∀ m, modIsTarget t m = false → (∃ g ∈ modFiles t.ws m, g.path = f.path) → f.isImport = true) :=
+  nontarget_files_core t c perm img hwf h
+
+/-- The two models of the target-file decision agree (audit C01 weak point 6): without a
+    proto-file reference — the only case C11's `BufModel.ImagePaths.isTargetFile` covers — it
+    computes the same Boolean as `BufModel.Targeting.isTargetFile` (C01/C10), for every module
+    flag, `--path` / `--exclude-path` lists and file. -/
+theorem target_models_agree (mt : Bool) (cfg : TCfg) (files : List PFile) (f : PFile)
+    (fs : List BufModel.ImagePaths.File) (hpf : cfg.protoFile = []) :
+    isTargetFile mt cfg files f =
+      BufModel.ImagePaths.isTargetFile
+        { isTarget := mt, targetPaths := cfg.paths, excludePaths := cfg.excludes, files := fs } f.path :=
+  isTargetFile_eq_imagePaths mt cfg files f fs hpf
+
+/-! ### Success and fuel (audit C01 weak point 2) -/
+
+/-- Fuel suffices: for EVERY workspace, targeting, compiler and return order `buildImage` never
+    reports `.fuel` (the bound `|allPaths| + |roots| + 1` exceeds the number of openable paths). -/
+theorem fuel_suffices (t : TWS) (c : Compiler) (perm : List Str → List Str) :
+    buildImage t c perm ≠ .error .fuel :=
+  buildImage_ne_fuel t c perm
+
+/-- `GetTargetFileInfos` succeeds when every bucket lists a path once, no path is a target file
+    of two modules, a targeted module walked without `--path` has a .proto file, and at least one
+    file is targeted. -/
+theorem target_list_succeeds (t : TWS) (hwf : WfCfgs t)
+    (hfiles : ∀ m, ((modFiles t.ws m).map (·.path)).Nodup)
+    (hdisj : ∀ m m' f f', m ≠ m' → f ∈ modFiles t.ws m → f' ∈ modFiles t.ws m' →
+      isTargetIn t m f = true → isTargetIn t m' f' = true → f.path ≠ f'.path)
+    (hnonempty : ∀ m, m < t.ws.mods.length → modIsTarget t m = true → (cfgOf t m).paths = [] →
+      (modFiles t.ws m).isEmpty = false)
+    (hsome : ∃ m f, f ∈ modFiles t.ws m ∧ isTargetIn t m f = true) :
+    ∃ roots, targetList t = .ok roots :=
+  targetList_ok_of t hwf hfiles hdisj hnonempty hsome
+
+/-- Buildable ⇒ an image exists (given the root list): every path reachable from a root opens
+    (exactly one module provides it, or none and it is a built-in WKT — this is also "no
+    duplicate path among the reachable files"), no reachable file lies on an import cycle, the
+    compiler returns the roots in some permutation, one commit per module name, no empty root
+    name → `buildImage` returns an image.  This is where `dfs_order_topological_of_acyclic` meets
+    `buildImage`: under `hac` the DFS order passes the `isTopo` check. -/
+theorem build_succeeds_of_roots (t : TWS) (c : Compiler) (perm : List Str → List Str) (roots : List Str)
+    (hroots : targetList t = .ok roots)
+    (hopen : ∀ r ∈ roots, ∀ p, Reach (csucc t.ws c) r p → csucc t.ws c p ≠ none)
+    (hac : ∀ r ∈ roots, ∀ x, Reach (csucc t.ws c) r x → ∀ cs d, csucc t.ws c x = some cs → d ∈ cs →
+      ¬ Reach (csucc t.ws c) d x)
+    (hperm : (perm roots).Perm roots) (hcommit : OneCommitPerName t.ws) (hpathne : ∀ r ∈ roots, r ≠ []) :
+    ∃ img, buildImage t c perm = .ok img :=
+  buildImage_ok_of_roots t c perm roots hroots hopen hac hperm hcommit hpathne
+
+/-- Buildable ⇒ an image exists, stated on the workspace alone (nothing about `targetList`):
+    well-formed targeting options; every bucket lists a path once, no empty path; a targeted
+    module walked without `--path` has a .proto file; at least one target file; everything
+    reachable from a target file opens; nothing reachable lies on an import cycle; the compiler
+    returns the roots in some permutation; one commit per module name. -/
+theorem build_succeeds (t : TWS) (c : Compiler) (perm : List Str → List Str) (hwf : WfCfgs t)
+    (hfiles : ∀ m, ((modFiles t.ws m).map (·.path)).Nodup)
+    (hpathne : ∀ m f, f ∈ modFiles t.ws m → f.path ≠ [])
+    (hnonempty : ∀ m, m < t.ws.mods.length → modIsTarget t m = true → (cfgOf t m).paths = [] →
+      (modFiles t.ws m).isEmpty = false)
+    (hsome : ∃ m f, f ∈ modFiles t.ws m ∧ isTargetIn t m f = true)
+    (hopen : ∀ m f, f ∈ modFiles t.ws m → isTargetIn t m f = true →
+      ∀ p, Reach (csucc t.ws c) f.path p → csucc t.ws c p ≠ none)
+    (hac : ∀ m f, f ∈ modFiles t.ws m → isTargetIn t m f = true →
+      ∀ x, Reach (csucc t.ws c) f.path x → ∀ cs d, csucc t.ws c x = some cs → d ∈ cs →
+        ¬ Reach (csucc t.ws c) d x)
+    (hperm : ∀ l, (perm l).Perm l) (hcommit : OneCommitPerName t.ws) :
+    ∃ img, buildImage t c perm = .ok img := by
+  -- a target path two modules provide could not be opened: disjointness follows from `hopen`
+  have hdisj : ∀ m m' f f', m ≠ m' → f ∈ modFiles t.ws m → f' ∈ modFiles t.ws m' →
+      isTargetIn t m f = true → isTargetIn t m' f' = true → f.path ≠ f'.path := by
+    intro m m' f f' hne hf hf' ht _ hp
+    have hdup := owner_dup_of_two hne ⟨f, hf, rfl⟩ ⟨f', hf', hp.symm⟩
+    have hn : csucc t.ws c f.path = none :=
+      csucc_none_iff.mpr (openFile_error_iff.mpr (Or.inl hdup))
+    exact hopen m f hf ht f.path (Reach.refl _) hn
+  obtain ⟨roots, hroots⟩ := targetList_ok_of t hwf hfiles hdisj hnonempty hsome
+  apply buildImage_ok_of_roots t c perm roots hroots _ _ (hperm roots) hcommit
+  · intro r hr
+    obtain ⟨m, f, hf, _, rfl⟩ := mem_targetList_sound hroots hr
+    exact hpathne m f hf
+  · intro r hr
+    obtain ⟨m, f, hf, ht, rfl⟩ := mem_targetList_sound hroots hr
+    exact hopen m f hf ht
+  · intro r hr
+    obtain ⟨m, f, hf, ht, rfl⟩ := mem_targetList_sound hroots hr
+    exact hac m f hf ht
+
+/-! ### "Does not compile ⇒ no image" (audit C01 weak point 4) -/
+
+/-- A path reachable from a target through the compiler's import lists that cannot be opened —
+    nobody provides it and it is no built-in well-known type, or two modules provide it — ⇒ no
+    image. -/
+theorem unopenable_import_fails (t : TWS) (c : Compiler) (perm : List Str → List Str)
+    (roots : List Str) (hroots : targetList t = .ok roots) (r p : Str) (hr : r ∈ roots)
+    (hreach : Reach (csucc t.ws c) r p) (hnone : csucc t.ws c p = none) :
+    ∃ e, buildImage t c perm = .error e :=
+  buildImage_error_of_unopenable t c perm roots hroots r p hr hreach hnone
+
+/-- `csucc … = none` spelled out: the owner lookup reports a duplicate, or nobody provides the path
+    and it is not a built-in well-known type. -/
+theorem unopenable_iff (ws : WS) (c : Compiler) (p : Str) :
+    csucc ws c p = none ↔ owner ws p = .dup ∨ (owner ws p = .none ∧ isWkt ws p = false) := by
+  rw [csucc_none_iff, openFile_error_iff]
+
+/-- A reachable file on an import cycle ⇒ no image. -/
+theorem import_cycle_fails (t : TWS) (c : Compiler) (perm : List Str → List Str)
+    (roots : List Str) (hroots : targetList t = .ok roots) (r x d : Str) (cs : List Str) (hr : r ∈ roots)
+    (hreach : Reach (csucc t.ws c) r x) (hs : csucc t.ws c x = some cs) (hd : d ∈ cs)
+    (hcyc : Reach (csucc t.ws c) d x) :
+    ∃ e, buildImage t c perm = .error e :=
+  buildImage_error_of_cycle t c perm roots hroots r x d cs hr hreach hs hd hcyc
+
+/-- Exactly when a build fails (once the root list exists and the side conditions on the compiler's
+    return order, commits and names hold): some reachable path cannot be opened, or some reachable
+    file lies on an import cycle.  No spurious failure, no missed one. -/
+theorem build_fails_iff (t : TWS) (c : Compiler) (perm : List Str → List Str) (roots : List Str)
+    (hroots : targetList t = .ok roots) (hperm : (perm roots).Perm roots)
+    (hcommit : OneCommitPerName t.ws) (hpathne : ∀ r ∈ roots, r ≠ []) :
+    (∃ e, buildImage t c perm = .error e) ↔
+      (∃ r ∈ roots, ∃ p, Reach (csucc t.ws c) r p ∧ csucc t.ws c p = none) ∨
+      (∃ r ∈ roots, ∃ x cs d, Reach (csucc t.ws c) r x ∧ csucc t.ws c x = some cs ∧ d ∈ cs ∧
+        Reach (csucc t.ws c) d x) := by
+  constructor
+  · rintro ⟨e, he⟩
+    apply Classical.byContradiction
+    intro hno
+    have hopen : ∀ r ∈ roots, ∀ p, Reach (csucc t.ws c) r p → csucc t.ws c p ≠ none :=
+      fun r hr p hp hn => hno (Or.inl ⟨r, hr, p, hp, hn⟩)
+    have hac : ∀ r ∈ roots, ∀ x, Reach (csucc t.ws c) r x → ∀ cs d, csucc t.ws c x = some cs → d ∈ cs →
+        ¬ Reach (csucc t.ws c) d x :=
+      fun r hr x hx cs d hs hd hc => hno (Or.inr ⟨r, hr, x, cs, d, hx, hs, hd, hc⟩)
+    obtain ⟨img, himg⟩ := buildImage_ok_of_roots t c perm roots hroots hopen hac hperm hcommit hpathne
+    rw [himg] at he; cases he
+  · rintro (⟨r, hr, p, hp, hn⟩ | ⟨r, hr, x, cs, d, hx, hs, hd, hc⟩)
+    · exact buildImage_error_of_unopenable t c perm roots hroots r p hr hp hn
+    · exact buildImage_error_of_cycle t c perm roots hroots r x d cs hr hx hs hd hc
 
 /-! non-vacuity: a two-module workspace whose target imports a file of the other module and a
     well-known type -/
@@ -172,5 +409,183 @@ example : (buildImage exWs exC id).map (fun l => l.map (fun f => (String.ofList 
 
 example : buildImage exWs exC List.reverse = buildImage exWs exC id :=
   sort_canonical exWs exC List.reverse (fun l => List.reverse_perm l)
+
+/-! ### non-vacuity of the second-pass hypotheses (all on concrete workspaces, by evaluation) -/
+
+theorem exWs_wf : WfCfgs exWs := wfCfgs_of_all (by decide)
+theorem exWs_roots : targetList exWs = .ok ["a.proto".toList] := by decide
+theorem exWs_commit : OneCommitPerName exWs.ws := oneCommit_of_check (by decide)
+
+/-- the compile closure of `exWs` evaluated once; it witnesses `hopen` and `hac`. -/
+theorem exWs_run :
+    dfsRoots (csucc exWs.ws exC) 10 ["a.proto".toList] =
+      .ok (["google/protobuf/any.proto".toList, "b.proto".toList, "a.proto".toList],
+           ["b.proto".toList, "google/protobuf/any.proto".toList, "a.proto".toList]) := by decide
+
+theorem exWs_hyps :
+    (∀ r ∈ ["a.proto".toList], ∀ p, Reach (csucc exWs.ws exC) r p → csucc exWs.ws exC p ≠ none) ∧
+    (∀ r ∈ ["a.proto".toList], ∀ x, Reach (csucc exWs.ws exC) r x → ∀ cs d,
+      csucc exWs.ws exC x = some cs → d ∈ cs → ¬ Reach (csucc exWs.ws exC) d x) :=
+  run_witnesses_hyps exWs_run (by decide)
+
+-- `build_succeeds_of_roots`: all six hypotheses hold for `exWs`, with a non-identity return order
+example : ∃ img, buildImage exWs exC List.reverse = .ok img :=
+  build_succeeds_of_roots exWs exC List.reverse _ exWs_roots exWs_hyps.1 exWs_hyps.2
+    (List.reverse_perm _) exWs_commit (by decide)
+
+-- `build_succeeds`: the workspace-level hypotheses hold for `exWs`
+example : ∃ img, buildImage exWs exC List.reverse = .ok img := by
+  have hmem : ∀ m f, f ∈ modFiles exWs.ws m → isTargetIn exWs m f = true → f.path ∈ ["a.proto".toList] :=
+    fun m f hf ht => (mem_targetList exWs_wf exWs_roots f.path).mpr ⟨m, f, hf, ht, rfl⟩
+  exact build_succeeds exWs exC List.reverse exWs_wf
+    (modFiles_forall (P := fun l => (l.map (·.path)).Nodup) (by simp) (by decide))
+    (fun m => modFiles_forall (P := fun l => ∀ f ∈ l, f.path ≠ []) (by simp) (by decide) m)
+    (by decide)
+    ⟨0, { path := "a.proto".toList, imports := ["b.proto".toList, "google/protobuf/any.proto".toList] }, by decide, by decide⟩
+    (fun m f hf ht => exWs_hyps.1 _ (hmem m f hf ht))
+    (fun m f hf ht => exWs_hyps.2 _ (hmem m f hf ht))
+    (fun l => List.reverse_perm l) exWs_commit
+
+-- `target_list_succeeds` / `target_list_exact` / `targets_exact_files` / `nontarget_files_are_imports`:
+-- `exWs_wf`, `exWs_roots` and the `decide` example above instantiate their hypotheses; the
+-- non-target module 1 provides b.proto, which is in the image as an import:
+example : ∀ img, buildImage exWs exC id = .ok img → ∀ f ∈ img, f.path = "b.proto".toList → f.isImport = true := by
+  intro img h f hf hp
+  exact (nontarget_files_are_imports exWs exC id img exWs_wf h f hf).2.2 1 (by decide)
+    ⟨{ path := "b.proto".toList, imports := [] }, by decide, hp.symm⟩
+
+-- `target_list_succeeds`: its hypotheses hold for `exWs` (module 0 is the only targeted one)
+example : ∃ roots, targetList exWs = .ok roots := by
+  have honly : ∀ m f, f ∈ modFiles exWs.ws m → isTargetIn exWs m f = true → m = 0 := by
+    intro m f hf ht
+    have hlt : m < 2 := modFiles_lt hf
+    have hall : ∀ m, m < 2 → modIsTarget exWs m = true → m = 0 := by decide
+    exact hall m hlt (modIsTarget_of_isTargetIn ht)
+  exact target_list_succeeds exWs exWs_wf
+    (modFiles_forall (P := fun l => (l.map (·.path)).Nodup) (by simp) (by decide))
+    (fun m m' f f' hne hf hf' ht ht' _ => hne ((honly m f hf ht).trans (honly m' f' hf' ht').symm))
+    (by decide)
+    ⟨0, { path := "a.proto".toList, imports := ["b.proto".toList, "google/protobuf/any.proto".toList] }, by decide, by decide⟩
+
+-- `module_target_files_exact` / `target_list_exact` / `targets_exact_files` on `exWs`
+example : ∀ p, p ∈ ["a.proto".toList] ↔ ∃ m f, f ∈ modFiles exWs.ws m ∧ isTargetIn exWs m f = true ∧ f.path = p :=
+  (target_list_exact exWs _ exWs_wf exWs_roots).2.2.2
+
+/-- `--path a --exclude-path a/x` on a module with a/x/1.proto, a/y.proto, ab/z.proto (a sibling
+    directory that string-prefix matching would wrongly include). -/
+def exWsP : TWS :=
+  { ws := { mods := [ { files := [{ path := "a/x/1.proto".toList, imports := [] }, { path := "a/y.proto".toList, imports := [] },
+                                  { path := "ab/z.proto".toList, imports := [] }],
+                        isTarget := true, isLocal := true } ],
+            wkt := [] },
+    cfgs := [{ paths := ["a".toList], excludes := ["a/x".toList] }] }
+
+example : (cfgOf exWsP 0).protoFile = [] ∧ WfCfgs exWsP := ⟨rfl, wfCfgs_of_all (by decide)⟩
+example : targetList exWsP = .ok ["a/y.proto".toList] := by decide
+example : isTargetIn exWsP 0 { path := "a/y.proto".toList, imports := [] } = true :=
+  (is_target_file_paths exWsP 0 _ rfl).mpr
+    ⟨rfl, Or.inr ⟨"a".toList, by decide, by decide⟩, by decide⟩
+
+/-- proto-file reference p/a.proto with include_package_files: p/b.proto has the same package,
+    q/c.proto another one. -/
+def exWsF : TWS :=
+  { ws := { mods := [ { files := [{ path := "p/a.proto".toList, imports := [], pkg := "p".toList },
+                                  { path := "p/b.proto".toList, imports := [], pkg := "p".toList },
+                                  { path := "q/c.proto".toList, imports := [], pkg := "q".toList }],
+                        isTarget := true, isLocal := true } ],
+            wkt := [] },
+    cfgs := [{ protoFile := "p/a.proto".toList, includePackageFiles := true }] }
+
+example : (cfgOf exWsF 0).protoFile ≠ [] ∧ ((modFiles exWsF.ws 0).map (·.path)).Nodup ∧ WfCfgs exWsF :=
+  ⟨by decide, by decide, wfCfgs_of_all (by decide)⟩
+example : targetList exWsF = .ok ["p/a.proto".toList, "p/b.proto".toList] := by decide
+example : isTargetIn exWsF 0 { path := "p/b.proto".toList, imports := [], pkg := "p".toList } = true :=
+  (is_target_file_proto_ref exWsF 0 _ (by decide) (by decide)).mpr
+    ⟨rfl, Or.inr ⟨rfl, { path := "p/a.proto".toList, imports := [], pkg := "p".toList }, by decide, rfl, by decide, rfl⟩⟩
+
+/-- a target that imports a path nobody provides. -/
+def exWsBad : TWS :=
+  { ws := { mods := [ { files := [{ path := "a.proto".toList, imports := ["missing.proto".toList] }],
+                        isTarget := true, isLocal := true } ],
+            wkt := [] },
+    cfgs := [{}] }
+def exBadC : Compiler :=
+  { imports := fun p => if p = "a.proto".toList then ["missing.proto".toList] else []
+    unused := fun _ => [], syntaxUnspecified := fun _ => false }
+
+-- the hypotheses of `unopenable_import_fails` hold …
+example : ∃ e, buildImage exWsBad exBadC id = .error e :=
+  unopenable_import_fails exWsBad exBadC id ["a.proto".toList] (by decide) "a.proto".toList "missing.proto".toList
+    (by decide)
+    (Reach.step (Reach.refl _) (by decide : csucc exWsBad.ws exBadC "a.proto".toList = some ["missing.proto".toList]) (by decide))
+    (by decide)
+-- … and the model reports the compiler diagnostic
+example : buildImage exWsBad exBadC id = .error .compile := by decide
+
+/-- a.proto ⇄ b.proto -/
+def exWsCyc : TWS :=
+  { ws := { mods := [ { files := [{ path := "a.proto".toList, imports := ["b.proto".toList] },
+                                  { path := "b.proto".toList, imports := ["a.proto".toList] }],
+                        isTarget := true, isLocal := true } ],
+            wkt := [] },
+    cfgs := [{ paths := ["a.proto".toList] }] }
+def exCycC : Compiler :=
+  { imports := fun p => if p = "a.proto".toList then ["b.proto".toList] else if p = "b.proto".toList then ["a.proto".toList] else []
+    unused := fun _ => [], syntaxUnspecified := fun _ => false }
+
+-- the hypotheses of `import_cycle_fails` hold (root a, x = a, d = b, b reaches a) …
+example : ∃ e, buildImage exWsCyc exCycC id = .error e :=
+  import_cycle_fails exWsCyc exCycC id ["a.proto".toList] (by decide) "a.proto".toList "a.proto".toList
+    "b.proto".toList ["b.proto".toList] (by decide) (Reach.refl _) (by decide) (by decide)
+    (Reach.step (Reach.refl _) (by decide : csucc exWsCyc.ws exCycC "b.proto".toList = some ["a.proto".toList]) (by decide))
+example : buildImage exWsCyc exCycC id = .error .compile := by decide
+
+-- `build_fails_iff`: its side conditions hold for `exWs` (no failure: right-hand side false) and
+-- for `exWsBad` (failure: first disjunct)
+example : ¬ ∃ e, buildImage exWs exC id = .error e := by
+  rw [build_fails_iff exWs exC id _ exWs_roots (List.Perm.refl _) exWs_commit (by decide)]
+  rintro (⟨r, hr, p, hp, hn⟩ | ⟨r, hr, x, cs, d, hx, hs, hd, hc⟩)
+  · exact exWs_hyps.1 r hr p hp hn
+  · exact exWs_hyps.2 r hr x hx cs d hs hd hc
+
+-- `dfs_order_topological_of_acyclic`: `hac` is satisfiable — the graph 0 → 1
+def exSucc : Nat → Option (List Nat) := fun n => if n = 0 then some [1] else if n = 1 then some [] else none
+
+theorem exSucc_acyclic : ∀ x cs c, exSucc x = some cs → c ∈ cs → ¬ Reach exSucc c x := by
+  intro x cs c hs hc hr
+  have h1 : ∀ y, Reach exSucc 1 y → y = 1 := by
+    intro y hy
+    induction hy with
+    | refl => rfl
+    | step _ hs' hc' ih =>
+      subst ih
+      simp only [exSucc] at hs'
+      injection hs' with hs'
+      subst hs'
+      simp at hc'
+  unfold exSucc at hs
+  split at hs
+  · rename_i hx
+    injection hs with hs; subst hs; subst hx
+    simp only [List.mem_singleton] at hc
+    subst hc
+    exact absurd (h1 0 hr) (by decide)
+  · split at hs
+    · injection hs with hs; subst hs; simp at hc
+    · cases hs
+
+example : isTopo exSucc [] [1, 0] = true :=
+  dfs_order_topological_of_acyclic exSucc exSucc_acyclic 5 [0] [1, 0] [1, 0] (by decide)
+
+-- `dup_path_rejected`: the hypothesis is satisfiable, and a repeated path is what gets rejected
+def exImgFile : ImgFile :=
+  { path := "a.proto".toList, isImport := false, syntaxUnspecified := false, unusedIdx := [], modName := none, commit := 0 }
+example : newImage [exImgFile] = .ok [exImgFile] := by decide
+example : newImage [exImgFile, exImgFile] = .error .dupImageFile := by decide
+
+-- `annotation_position_partial`: hypotheses satisfiable
+example : annotate (fun _ => some "/tmp/ws/a.proto".toList) ⟨"a.proto".toList, 3, 7⟩ =
+    { externalPath := "/tmp/ws/a.proto".toList, line := 3, col := 7 } :=
+  annotation_position_partial _ _ _ rfl (by decide)
 
 end BufProofs.C01
